@@ -294,8 +294,10 @@ def main():
                            domains={k: repr(v) for k, v in ob.domains.items()},
                            split=list(ob.split), funcs=list(ob.funcs),
                            witness=witness))
-    if witness is not None and len(samples) < 12:
-      samples.append(dict(obligation=ob.name, reachability_witness=witness))
+    if witness is not None and not ob.name.startswith('canary'):
+      samples.append(dict(obligation=ob.name, kind=ob.kind, bounds=ob.bounds,
+                          reachability_witness=witness, paths=ob_paths,
+                          verdict='discharged' if done else 'open'))
     print('%-44s %-6s jobs=%-4d %s paths=%d cpu=%.0fs maxjob=%.0fs' % (
         ob.name, 'OK' if done else ('HUNT' if ob.hunt else '??'), len(rows), st,
         ob_paths, ob_cpu, ob_max))
@@ -340,7 +342,8 @@ def main():
             jobs=tot['jobs'], smt_queries=tot['queries'],
             solver_s=round(tot['solver_s'], 2), cpu_s=round(tot['cpu'], 1),
             functions_encoded=funcs,
-            obligation_reports=ob_reports, samples=samples or [dict(note='none')],
+            obligation_reports=ob_reports,
+            samples=(samples[:16] or [dict(note='none')]),
             inconclusive_list=inconclusive[:50],
             known_findings=known_lines,
             exhaustive=(tot['discharged'] == n_ob),
